@@ -1,10 +1,14 @@
 """C01 — The solver always holds exactly the model's flux-balance problem."""
-from contracts import c01_lp  # noqa
+from contracts import c01_lp, c02_rename  # noqa
 from props._generic import run_property, replay_with_driver
 
 LEVEL = "other"
 KEYS = ["Reaction._check_bounds", "Reaction.update_variable_bounds", "Reaction.lower_bound@setter", "Reaction.upper_bound@setter",
         "Reaction.bounds@setter", "Reaction.knock_out"]
+# renaming an object of a model keeps the solver objects' names in step (contracts shared with C02; own hook table); the assumed
+# optlang contracts they rest on are listed so that they appear in the trusted base
+RENAME_KEYS = ["Reaction._set_id_with_model", "Metabolite._set_id_with_model", "Variable.name@setter", "Constraint.name@setter",
+               "Container.__getitem__", "Reaction.forward_variable@getter", "Reaction.reverse_variable@getter"]
 
 
 def fallback(key, case, rec):
@@ -50,14 +54,27 @@ def fallback(key, case, rec):
 
 
 def run(rep):
-    run_property(rep, KEYS, fallback=fallback, explanation=(
+    run_property(rep, KEYS, fallback=fallback, more=[(RENAME_KEYS, c02_rename.HOOKS)], explanation=(
         "Deductive (kernel): Reaction.update_variable_bounds is proved, for all extended-real bounds with lb<=ub, lb<+inf, ub>-inf, "
         "to give the forward/reverse variable pair bounds such that the net flux f-r ranges over exactly [lb,ub] (both inclusions, "
         "the statement's wording), to follow the documented three-branch map, to keep both variables non-negative and to touch no "
         "other variable; the three bounds setters and Reaction.knock_out are proved against it incl. the raising case (lb>ub leaves "
-        "everything unchanged). The closure of the invariant over all public operations and histories is NOT proved: it is covered "
+        "everything unchanged). Renaming (Reaction._set_id_with_model / Metabolite._set_id_with_model, reached through the id "
+        "setter of an object that belongs to a model) is proved to keep the solver in step: from a state where the reaction's forward "
+        "/ reverse variable carry id / reverse id as names, afterwards the forward variable is named by the new id, the reverse "
+        "variable by the new reverse id and no other solver object is renamed (metabolite: the constraint registered under the old id "
+        "is named by the new id, nothing else); a new id that is already in use raises ValueError with NOTHING changed; for a "
+        "reaction, a new id (or reverse id) that optlang's name setter refuses (white space) raises ValueError with NOTHING changed "
+        "either - id, list, index, the names of both variables, a forward variable already renamed carries its old name again (the "
+        "original body left id and index changed: defect found with this contract, repaired in /repo acce6db). Stated preconditions: "
+        "the object is listed in its model's well-formed DictList and the solver is in step at entry (names optlang accepted); for a "
+        "metabolite also that optlang accepts the new name (its constraint is renamed first, a refused name raises before anything "
+        "changed - not modelled as a case). The closure of the invariant over all public operations and histories is NOT proved: it is covered "
         "by the bounded driver (exhaustive/seeded histories with the GLPK problem read back through swiglpk after every step)."),
-        trusted=["optlang Variable.set_bounds / model.variables lookup (assumed contracts)", "md5-based reverse_id injective"])
+        trusted=["optlang Variable.set_bounds / model.variables lookup (assumed contracts)", "md5-based reverse_id injective",
+                 "reverse_id is a function of the current id (hook in contracts/c02_rename.py); lookup of a solver variable by name "
+                 "finds the reaction's variable only while it carries the current (reverse) id",
+                 "optlang name setters and model.constraints[name] (assumed contracts over the heap field opt_name)"])
 
 
 def replay(payload):
